@@ -53,7 +53,7 @@ def scenarios(tier, seed):
         dep4 = powerset(names4)
         for ds in itertools.product(dep4, repeat=4):
             deps = dict(zip(names4, ds))
-            for rq in rnd.sample(reqs4, 4):
+            for rq in rnd.sample(reqs4, 8):
                 add(names4, deps, {}, rq, reps=3)
             if rnd.random() < 0.2:
                 add(names4, deps, {}, rnd.choice(reqs4), failing=rnd.sample(names4, rnd.randint(1, 3)))
